@@ -110,6 +110,21 @@ class mRNA:
         return [c.name for c in self.codons if c.required and c.codon_type == CodonType.VARIABLE]
 
 
+# Braces inside substituted values are shielded with private-use code points
+# until rendering is complete, so that a bound value, loop item, default or
+# included text is emitted verbatim and never re-read as template syntax by a
+# later pass.
+_SHIELD_OPEN, _SHIELD_CLOSE = "\ue000", "\ue001"
+
+
+def _shield(text: str) -> str:
+    return text.replace("{", _SHIELD_OPEN).replace("}", _SHIELD_CLOSE)
+
+
+def _unshield(text: str) -> str:
+    return text.replace(_SHIELD_OPEN, "{").replace(_SHIELD_CLOSE, "}")
+
+
 @dataclass
 class Protein:
     """
@@ -301,7 +316,7 @@ class Ribosome:
         sequence = self._process_variables(sequence, context, warnings)
 
         return Protein(
-            sequence=sequence,
+            sequence=_unshield(sequence),
             source_mrna=mrna.name,
             variables_bound=context,
             warnings=warnings
@@ -352,9 +367,9 @@ class Ribosome:
             if var_name in context:
                 value = context[var_name]
                 if filter_name in self.filters:
-                    return self.filters[filter_name](value)
+                    return _shield(str(self.filters[filter_name](value)))
                 warnings.append(f"Unknown filter: {filter_name}")
-                return str(value)
+                return _shield(str(value))
             return match.group(0)
 
         result = re.sub(r'\{\{(\w+)\|(\w+)\}\}', replace_filtered, result)
@@ -377,14 +392,14 @@ class Ribosome:
             value_or_default = match.group(2)
             if value_or_default not in self.filters:
                 if var_name in context:
-                    result = result.replace(match.group(0), str(context[var_name]))
+                    result = result.replace(match.group(0), _shield(str(context[var_name])))
                 else:
-                    result = result.replace(match.group(0), value_or_default)
+                    result = result.replace(match.group(0), _shield(value_or_default))
 
         # Optional variables: {{?name}}
         def replace_optional(match: re.Match) -> str:
             var_name = match.group(1)
-            return str(context.get(var_name, ""))
+            return _shield(str(context.get(var_name, "")))
 
         result = re.sub(r'\{\{\?(\w+)\}\}', replace_optional, result)
 
@@ -392,7 +407,7 @@ class Ribosome:
         def replace_simple(match: re.Match) -> str:
             var_name = match.group(1)
             if var_name in context:
-                return str(context[var_name])
+                return _shield(str(context[var_name]))
             warnings.append(f"Unbound variable: {var_name}")
             return match.group(0)
 
@@ -492,7 +507,7 @@ class Ribosome:
                 # Process the content with loop context
                 part = content
                 for key, value in loop_context.items():
-                    part = part.replace(f"{{{{{key}}}}}", str(value))
+                    part = part.replace(f"{{{{{key}}}}}", _shield(str(value)))
 
                 output_parts.append(part)
 
@@ -532,7 +547,7 @@ class Ribosome:
             template_name = match.group(1)
             if template_name in self.templates:
                 protein = self.translate(template_name, **context)
-                return protein.sequence
+                return _shield(protein.sequence)
             return f"[Unknown template: {template_name}]"
 
         result = re.sub(pattern, replace_include, result)
